@@ -38,6 +38,25 @@ Proof.
     cbn. now rewrite app_nil_r.
 Qed.
 
+(* a refused add (tree mode, identical coordinates): storage may grow and slot N is written, but N and the
+   live particles are unchanged and no access leaves the storage *)
+Lemma add_slot_spec : forall s p, wf s ->
+  wf (add_slot_only s p) /\ oob (add_slot_only s p) = oob s /\
+  abs (add_slot_only s p) = mkA (acfg (abs s)) (aps (abs s)) (aNact (abs s)) (aNvar (abs s)) (atree (abs s) || acfg (abs s)).
+Proof.
+  intros s p [Hm Ht]. unfold add_slot_only.
+  destruct (grow_ok (length (mem s)) (sN s) Hm) as [G1 G2].
+  set (alloc := grow_alloc (S (S (sN s))) (length (mem s)) (sN s)) in *.
+  set (mem1 := mem s ++ repeat pzero (alloc - length (mem s))).
+  assert (L1 : length mem1 = alloc) by (unfold mem1; rewrite app_length, repeat_length; lia).
+  split; [|split].
+  - split; cbn; auto. rewrite upd_length. lia.
+  - cbn. rewrite chk_in; lia.
+  - unfold abs; cbn [tcfg mem sN sNact sNvar tree acfg aps aNact aNvar atree]. f_equal.
+    rewrite firstn_upd_ge by lia. unfold mem1. rewrite firstn_app.
+    replace (sN s - length (mem s)) with 0 by lia. cbn. now rewrite app_nil_r.
+Qed.
+
 (* ---------------- the keep_sorted shift loop *)
 Lemma shift_spec : forall cnt j m ob m' ob', j + cnt < length m -> shift cnt j m ob = (m', ob') ->
   ob' = ob /\ length m' = length m /\
